@@ -121,6 +121,9 @@ func NewGen(r *vh.Rand, p Profile) (*Case, Gen) {
 		adj = RandomGraph(r, n)
 	}
 	c := &Case{N: n, UseAgent: p.Agent, Settle: true}
+	if p.Agent && r.Chance(1, 2) {
+		c.MgmtKey = true
+	}
 	c.Limits = make([]int, n)
 	switch p.Limits {
 	case 1:
